@@ -224,10 +224,34 @@ def WSeqOK (s : St) : Prop :=
 
 instance (s : St) : Decidable (WSeqOK s) := by unfold WSeqOK; split <;> infer_instance
 
+/-- a journal file holds the groups `content` (the write buffer whose journal it is); it may hold more: the
+    record of a write whose journal `Write`/`Sync` failed may have reached the file.  Such a record is never one
+    that must survive, and it ends at or below `bound + 1` (its sequence numbers are consumed).  While a
+    transaction is open no such record waits in a journal the next `Open` would replay (a restriction of what
+    is proved, see `C08.fault_safe_writer_partial`). -/
+def JournalHolds (s : St) (jf : LogFile Grp) (content : List Grp) (bound : Nat) : Prop :=
+  (∀ g ∈ content, g ∈ jf.all) ∧ (∀ g ∈ jf.all, g ∈ must s → g ∈ content) ∧
+  (∀ g ∈ jf.all, g ∈ content ∨ g.fin ≤ bound + 1) ∧ (s.tr.isSome = true → jf.all = []) ∧
+  (s.everFailed = false → ∀ g ∈ jf.all, g ∈ content)
+
+instance (s : St) (jf : LogFile Grp) (content : List Grp) (bound : Nat) : Decidable (JournalHolds s jf content bound) := by
+  unfold JournalHolds; infer_instance
+
+/-- a journal file nobody holds any more (its removal failed) has at most records of failed writes -/
+def Stale0 (s : St) (jf : LogFile Grp) : Prop := ∀ g ∈ jf.all, g ∉ must s ∧ g.fin ≤ s.seq + 1
+
+instance (s : St) (jf : LogFile Grp) : Decidable (Stale0 s jf) := by unfold Stale0; infer_instance
+
+def Stale (s : St) (jf : LogFile Grp) : Prop :=
+  Stale0 s jf ∧ (s.tr.isSome = true → jf.all = []) ∧ (s.everFailed = false → jf.all = [])
+
+instance (s : St) (jf : LogFile Grp) : Decidable (Stale s jf) := by unfold Stale; infer_instance
+
 /-- the frozen buffer is the content of the frozen journal, and older than the current journal -/
 def FrozenFacts (cfg : Cfg) (s : St) (d : Disk) (fz : List Grp) (jf : Nat) : Prop :=
   jf < s.jcur ∧ s.frozenSeq ≤ s.seq ∧ (∀ g ∈ fz, g.fin ≤ s.frozenSeq + 1) ∧
-  (∀ g ∈ s.mem ++ inflight s.w, s.frozenSeq < g.seq) ∧ (∀ p ∈ d.journals, p.1 = jf → p.2.all = fz) ∧
+  (∀ p ∈ d.journals, p.1 = s.jcur → ∀ g ∈ p.2.all, s.frozenSeq < g.seq) ∧
+  (∀ p ∈ d.journals, p.1 = jf → JournalHolds s p.2 fz s.frozenSeq) ∧
   (FlushPending s → (∃ p ∈ d.journals, p.1 = jf) ∧ Holds (lastView cfg d) fun v => v.jn ≤ jf ∧ v.sq ≤ s.frozenSeq)
 
 instance (cfg : Cfg) (s : St) (d : Disk) (fz : List Grp) (jf : Nat) : Decidable (FrozenFacts cfg s d fz jf) := by
@@ -260,25 +284,25 @@ structure RunOK (cfg : Cfg) (s : St) (d : Disk) : Prop where
   norecov : s.recov = none ∧ TrOK s
   mfd : MfdOK s d ∧ s.manifestOpen = true
   /-- the current journal holds exactly the groups of the write buffer, plus the one in flight -/
-  jcur : Holds (lookup d.journals s.jcur) fun jf => jf.all = s.mem ++ inflight s.w
+  jcur : Holds (lookup d.journals s.jcur) fun jf => JournalHolds s jf (s.mem ++ inflight s.w) s.seq
   jmax : ∀ p ∈ d.journals, p.1 ≤ s.jcur
   nums : (∀ p ∈ d.journals, p.1 < s.nextFile) ∧ Holds d.current (· < s.nextFile)
   wseq : WSeqOK s
   frozen : FrozenOK cfg s d
   /-- only the frozen and the current journal can be relevant -/
   rel : Holds (curManifest d) fun mf => Holds (viewAt cfg mf 0) fun v0 =>
-    ∀ p ∈ d.journals, v0.jn ≤ p.1 → p.1 = s.jcur ∨ some p.1 = s.jfrozen ∨ p.2.all = []
+    ∀ p ∈ d.journals, v0.jn ≤ p.1 → p.1 = s.jcur ∨ some p.1 = s.jfrozen ∨ Stale s p.2
   nojob : s.job = none → Settled cfg s d (Mirror s)
 
 instance (cfg : Cfg) (s : St) (d : Disk) : Decidable (RunOK cfg s d) :=
   decidable_of_iff
     ((s.recov = none ∧ TrOK s) ∧ (MfdOK s d ∧ s.manifestOpen = true) ∧
-     (Holds (lookup d.journals s.jcur) fun jf => jf.all = s.mem ++ inflight s.w) ∧
+     (Holds (lookup d.journals s.jcur) fun jf => JournalHolds s jf (s.mem ++ inflight s.w) s.seq) ∧
      (∀ p ∈ d.journals, p.1 ≤ s.jcur) ∧
      ((∀ p ∈ d.journals, p.1 < s.nextFile) ∧ Holds d.current (· < s.nextFile)) ∧
      WSeqOK s ∧ FrozenOK cfg s d ∧
      (Holds (curManifest d) fun mf => Holds (viewAt cfg mf 0) fun v0 =>
-       ∀ p ∈ d.journals, v0.jn ≤ p.1 → p.1 = s.jcur ∨ some p.1 = s.jfrozen ∨ p.2.all = []) ∧
+       ∀ p ∈ d.journals, v0.jn ≤ p.1 → p.1 = s.jcur ∨ some p.1 = s.jfrozen ∨ Stale s p.2) ∧
      (s.job = none → Settled cfg s d (Mirror s)))
     ⟨fun ⟨a, b, c, e, f, g, h, i, k⟩ => ⟨a, b, c, e, f, g, h, i, k⟩,
      fun ⟨a, b, c, e, f, g, h, i, k⟩ => ⟨a, b, c, e, f, g, h, i, k⟩⟩
@@ -359,7 +383,7 @@ structure EditOK (s : St) (d : Disk) (j : Job) (e : MRec) (v : MView) : Prop whe
   /-- deleted tables are live, and their groups are contained in the output tables -/
   dels : (∀ t ∈ e.deleted, t ∈ v.live) ∧ ∀ g ∈ e.deleted.flatMap (tableGrpsOf d), g ∈ outsGrps j
   /-- journals the new view skips are contained in the output tables -/
-  skip : ∀ p ∈ d.journals, v.jn ≤ p.1 → p.1 < e.jn.getD v.jn → ∀ g ∈ p.2.all, g ∈ outsGrps j
+  skip : ∀ p ∈ d.journals, v.jn ≤ p.1 → p.1 < e.jn.getD v.jn → ∀ g ∈ p.2.all, g ∈ must s → g ∈ outsGrps j
   outs : ∀ g ∈ outsGrps j, g.fin ≤ e.sq.getD v.sq + 1 ∧ g ∈ issuedGrps s ∧ g.recs ≠ [] ∧
     (∀ h ∈ liveGrps d v, Disj g h) ∧ ∀ h ∈ outsGrps j, Disj g h
   keep : ∀ p ∈ d.journals, e.jn.getD v.jn ≤ p.1 → ∀ g ∈ p.2.all,
@@ -374,7 +398,7 @@ instance (s : St) (d : Disk) (j : Job) (e : MRec) (v : MView) : Decidable (EditO
   decidable_of_iff
     ((e.added = j.outs.map (·.1) ∧ e.torn = false ∧ e.snapshot = false) ∧
      ((∀ t ∈ e.deleted, t ∈ v.live) ∧ ∀ g ∈ e.deleted.flatMap (tableGrpsOf d), g ∈ outsGrps j) ∧
-     (∀ p ∈ d.journals, v.jn ≤ p.1 → p.1 < e.jn.getD v.jn → ∀ g ∈ p.2.all, g ∈ outsGrps j) ∧
+     (∀ p ∈ d.journals, v.jn ≤ p.1 → p.1 < e.jn.getD v.jn → ∀ g ∈ p.2.all, g ∈ must s → g ∈ outsGrps j) ∧
      (∀ g ∈ outsGrps j, g.fin ≤ e.sq.getD v.sq + 1 ∧ g ∈ issuedGrps s ∧ g.recs ≠ [] ∧
         (∀ h ∈ liveGrps d v, Disj g h) ∧ ∀ h ∈ outsGrps j, Disj g h) ∧
      (∀ p ∈ d.journals, e.jn.getD v.jn ≤ p.1 → ∀ g ∈ p.2.all,
@@ -434,7 +458,7 @@ instance (j : Job) : Decidable (PcIdxOK j) := by unfold PcIdxOK; split <;> infer
 /-- pending removals only concern files no admissible view needs -/
 def RemovalsOK (s : St) (d : Disk) (j : Job) (v : MView) : Prop :=
   match j.pc with
-  | .rmJ rest => (∀ n ∈ rest, (n < v.jn ∨ (n < s.jcur ∧ ∀ p ∈ d.journals, p.1 = n → p.2.all = [])) ∧
+  | .rmJ rest => (∀ n ∈ rest, (n < v.jn ∨ (n < s.jcur ∧ ∀ p ∈ d.journals, p.1 = n → Stale0 s p.2)) ∧
         ∀ x, j.mkJournal = some x → n < x) ∧
       (∀ t ∈ j.rmTables, t ∉ v.live) ∧ (j.kind = .compaction ∨ j.kind = .tr → rest = [])
   | .rmT rest => ∀ t ∈ rest, t ∉ v.live
